@@ -50,6 +50,56 @@ type MsgSet = list | set | tuple
 
 LOG_DIR = Path("/opt/asimap/logs")
 
+# Characters that can not appear in an IMAP quoted string (nor in the human
+# readable text of a status response.)
+#
+_NOT_QUOTABLE = ("\r", "\n", "\0")
+
+
+####################################################################
+#
+def imap_string(value: bytes) -> bytes:
+    r"""
+    Format `value` as an IMAP `string`: a quoted string with `"` and `\`
+    escaped, or a literal if it has a CR, LF or NUL (which a quoted string
+    can not hold.)
+    """
+    if b"\r" in value or b"\n" in value or b"\0" in value:
+        return b"{%d}\r\n%b" % (len(value), value)
+    return b'"' + value.replace(b"\\", b"\\\\").replace(b'"', b'\\"') + b'"'
+
+
+####################################################################
+#
+def imap_quote(value: str) -> str:
+    """
+    Like `imap_string()` but for responses that are put together as a `str`
+    (and encoded when they are written to the client: as latin-1, or as utf-8
+    if latin-1 can not encode them.)
+    """
+    if any(c in value for c in _NOT_QUOTABLE):
+        try:
+            length = len(value.encode("latin-1"))
+        except UnicodeEncodeError:
+            length = len(value.encode("utf-8"))
+        return f"{{{length}}}\r\n{value}"
+    return '"' + value.replace("\\", "\\\\").replace('"', '\\"') + '"'
+
+
+####################################################################
+#
+def resp_text(text: Any) -> str:
+    """
+    The human readable text of a status response is a single line. Text that
+    we did not write ourselves (an exception message, something the client
+    sent us) may have CR, LF or NUL in it. Those become spaces.
+    """
+    result = str(text)
+    for c in _NOT_QUOTABLE:
+        result = result.replace(c, " ")
+    return result
+
+
 # RE used to suss out the digits of the uid_vv/uid header in an email
 # message
 #
